@@ -85,6 +85,14 @@ Definition short_head (t : token) : shead :=
   | _ => HOther
   end.
 
+(* Parser.Field,  Name '=' exp : the key is a name token, not an expression that denotes a name
+   ( {(a) = 1}  is not a field):  val.(ast.Name) && firstTok.Type == token.IDENT *)
+Definition field_named (ts : list token) (e : exp) : option N :=
+  match e, ts with
+  | EName k, TName _ :: _ => Some k
+  | _, _ => None
+  end.
+
 Definition is_sep (t : token) : bool := match t with TComma | TSemi => true | _ => false end.
 
 (* The nine mutually recursive parser functions.  [step P] is one unfolding of
@@ -267,9 +275,9 @@ Definition s_field (ts : list token) : res (field * list token) :=
     bind (r_exp P ts) (fun r =>
       match snd r with
       | TAssign :: ts1 =>
-        match fst r with
-        | EName k => bind (r_exp P ts1) (fun r2 => Ok ((FKey, EStr k, fst r2, false), snd r2))
-        | _ => Err (snd r)
+        match field_named ts (fst r) with
+        | Some k => bind (r_exp P ts1) (fun r2 => Ok ((FKey, EStr k, fst r2, false), snd r2))
+        | None => Err (snd r)
         end
       | ts1 => Ok ((FPos, ENil, fst r, false), ts1)
       end)
